@@ -61,7 +61,7 @@ impl Compiler {
 
             self.compile_stmt(body)?;
 
-            let jump_dist = (self.current_offset() - loop_start + 1) as i16;
+            let jump_dist = self.jump_dist((self.current_offset() - loop_start + 1) as isize);
             self.emit_b(OpCode::Jump, 0, -jump_dist, body.span);
 
             self.patch_jump(jump_to_end);
@@ -101,7 +101,7 @@ impl Compiler {
 
         self.compile_stmt(body)?;
 
-        let jump_dist = (self.current_offset() - loop_start + 1) as i16;
+        let jump_dist = self.jump_dist((self.current_offset() - loop_start + 1) as isize);
         self.emit_b(OpCode::Jump, 0, -jump_dist, body.span);
 
         self.patch_jump(jump_to_end);
